@@ -31,7 +31,7 @@ def symbolize(exe, cls):
 
 FLAGS = ["-DRFC6531_FOLLOW_RFC5322", "-DRFC6531_FOLLOW_RFC20", "-DLABELS_ALLOW_UNDERSCORE"]
 VARIANTS = {"-idn": ([], "idn"), "-idnkit": ([], "idnkit"), "-crowd": (["-DSIM_MAXT=321", "-DSIM_NCELL_LOG=14"], "idn2"),
-            "-extra": (["-DEAV_EXTRA"], "idn2"), "-flags": (FLAGS, "idn2"), "-ndebug": (["-DNDEBUG"], "idn2")}
+            "-extra": (["-DEAV_EXTRA"], "idn2"), "-flags": (FLAGS, "idn2"), "-ndebug": (build.ALT_CONFIG, "idn2")}
 
 
 def main(tier, replay=None):
@@ -79,7 +79,7 @@ def main(tier, replay=None):
     batches.append(Batch("crowd", exe_c, "C14", "crowd", seed + 8, 160 if q else 10**8, 60 if q else 120, W, extra=extra("crowd")).run())
     if tier == "thorough":
         # other build configurations of the same sources: EAV_EXTRA (strndup'd lpart/domain), and the optional grammar flags
-        for vn, defs in (("-extra", ["-DEAV_EXTRA"]), ("-flags", FLAGS), ("-ndebug", ["-DNDEBUG"])):
+        for vn, defs in (("-extra", ["-DEAV_EXTRA"]), ("-flags", FLAGS), ("-ndebug", build.ALT_CONFIG)):
             exe_v, _ = build.build_sched(vn, defs)
             batches.append(Batch("swarm" + vn, exe_v, "C14", "swarm", seed + 3, 10**8, 90, W, extra=extra("swarm" + vn)).run())
     violations, known, nondet = handle_candidates("C14", batches, budget=250)
@@ -155,7 +155,7 @@ def main(tier, replay=None):
     cov["components"].update(binfo)
     assumptions = ["sampling of schedules, not proof; the race oracle (vector-clock happens-before over instrumented accesses and modelled libc calls) does not depend on the schedule taken as long as both accesses execute",
                    "libidn2 internals are not instrumented: only libeav's use of it is observed",
-                   "accesses to a thread's own stack and to pages that are read-only at run time are not events",
-                   "library statics are reset to their pristine image before every sequential reference run and before every concurrent phase, so first-use initialisation happens inside the simulation"]
+                   "accesses to a thread's own stack frames (below the frame of its thread function) and to pages that are read-only at run time are not events; a thread's accesses to its own thread-local block are",
+                   "every sequential reference run and every concurrent phase is a simulated process of its own: library statics reset to their link-time image, constructors run, a fresh OS thread as main thread; so first-use initialisation happens inside the simulation"]
     core.write_evidence("C14", tier, seed, "exploration", cov, assumptions, wall, len(violations))
     return conclude("C14", violations, known, nondet, det)
